@@ -45,6 +45,7 @@ def pub_sequences(tier: str) -> list[tuple]:
 
 class C06(E1Check):
     id = "C06"
+    backends = ["asyncio", "trio (quiescent choices + batch reversal)"]
     assumptions = [
         "one or two waiters, one publisher (plus optional second publisher), 1-3 publications each, wanted pair (RA, 'n')",
         "start_component(timeout=None); a program without a matching publication is expected to wait forever (dead-lock is its correct outcome)",
@@ -69,6 +70,11 @@ class C06(E1Check):
 
     def hash_modes(self, tier: str, program: Any) -> tuple:
         return (0,)
+
+    def backends_for(self, tier: str, program: Any) -> tuple:
+        if tier == "quick" and not (program.get("small") or program["kind"] in ("multi", "burst", "two")):
+            return ("asyncio",)
+        return ("asyncio", "trio")
 
     def units(self, tier: str, seed: int) -> list:
         progs = []
